@@ -69,4 +69,27 @@ BitsOf(bytes, ign) ==
     LET n == Len(bytes) * 8 - ign
     IN  IF n <= 0 THEN <<>>
         ELSE [i \in 1..n |-> ByteBits(bytes[(i - 1) \div 8 + 1])[((i - 1) % 8) + 1]]
+
+\* Well-formed UTF-8 (RFC 3629 / Unicode table 3-7: no overlong forms, no surrogates, nothing above U+10FFFF)
+Cont(x) == x \in 128..191
+RECURSIVE Utf8From(_, _)
+Utf8From(b, i) ==
+    IF i > Len(b) THEN TRUE
+    ELSE LET c == b[i]
+             n == Len(b)
+         IN  IF c < 128 THEN Utf8From(b, i + 1)
+             ELSE IF c \in 194..223 THEN i + 1 <= n /\ Cont(b[i + 1]) /\ Utf8From(b, i + 2)
+             ELSE IF c \in 224..239
+                  THEN /\ i + 2 <= n
+                       /\ b[i + 1] \in (IF c = 224 THEN 160..191 ELSE IF c = 237 THEN 128..159 ELSE 128..191)
+                       /\ Cont(b[i + 2]) /\ Utf8From(b, i + 3)
+             ELSE IF c \in 240..244
+                  THEN /\ i + 3 <= n
+                       /\ b[i + 1] \in (IF c = 240 THEN 144..191 ELSE IF c = 244 THEN 128..143 ELSE 128..191)
+                       /\ Cont(b[i + 2]) /\ Cont(b[i + 3]) /\ Utf8From(b, i + 4)
+             ELSE FALSE
+IsUtf8(b) == Utf8From(b, 1)
+
+\* the prefix of b before its first zero byte (a fixed-size, possibly zero-terminated name)
+UntilZero(b) == LET z == { i \in 1..Len(b) : b[i] = 0 } IN IF z = {} THEN b ELSE SubSeq(b, 1, Min2(Len(b), CHOOSE i \in z : \A j \in z : i <= j) - 1)
 =============================================================================
